@@ -774,7 +774,8 @@ impl<'tcx> Cx<'tcx> {
         let mut out: Vec<J> = Vec::new();
         #[allow(deprecated)]
         for a in self.tcx.get_all_attrs(did).iter() {
-            if a.name().map(|n| n.as_str() == "rustradio").unwrap_or(false) {
+            let path: Vec<String> = a.path().iter().map(|s| s.to_string()).collect();
+            if path.len() == 1 && path[0] == "rustradio" {
                 if let Some(list) = a.meta_item_list() {
                     for it in list.iter() {
                         if let Some(n) = it.name() {
@@ -782,6 +783,8 @@ impl<'tcx> Cx<'tcx> {
                         }
                     }
                 }
+            } else if std::env::var("RRFACTS_DEBUG_ATTRS").is_ok() {
+                out.push(J::s(format!("other:{}", path.join("::"))));
             }
         }
         J::Arr(out)
@@ -822,6 +825,23 @@ impl<'tcx> Cx<'tcx> {
             ("vis", J::s(format!("{:?}", tcx.visibility(did)))),
             ("span", self.span(tcx.def_span(did))),
             ("rr", self.rr_attrs(did)),
+            ("src", J::opt_s(did.as_local().and_then(|l| {
+                let sp = tcx.source_span(l);
+                tcx.sess.source_map().span_to_snippet(sp).ok()
+            }))),
+            ("pre", J::opt_s(did.as_local().and_then(|l| {
+                let sp = tcx.source_span(l);
+                let sm = tcx.sess.source_map();
+                let lo = sm.lookup_char_pos(sp.lo());
+                let mut lines: Vec<String> = Vec::new();
+                let first = lo.line.saturating_sub(16);
+                for ln in first..lo.line.saturating_sub(1) {
+                    if let Some(t) = lo.file.get_line(ln) {
+                        lines.push(t.to_string());
+                    }
+                }
+                Some(lines.join("\n"))
+            }))),
             ("variants", J::Arr(variants)),
         ])
     }
